@@ -50,8 +50,33 @@ def cond_tol(base, wp_hex, fwhm_hex):
 
 
 # ------------------------------------------------------------------------------------------------ S5 oracle
-def oracle(ctx, obs):
+def obs_key(o):
+    """what identifies one observation within the output of a harness call with the same arguments (bit patterns included)"""
+    k = o.get("kind")
+    if k == "env":
+        return ["env", o["setup"], o["fwhm"], o["w"], o["tag"]]
+    if k == "sup":
+        return ["sup", o["setup"], o["tag"], o["ws"], o["wi"], o["thr"]]
+    if k == "scale":
+        return ["scale", o["setup"], o["a"], o["b"]]
+    if k == "hom2":
+        return ["hom2", o["setup"], o["source1"], o["source2"]]
+    if k == "counts":
+        return ["counts", o["setup"], o["res"]]
+    return [k, o.get("setup")]
+
+
+def oracle(ctx, obs, args=None):
     for o in obs:
+        n0 = len(ctx.violations)
+        oracle_one(ctx, o)
+        for v in ctx.violations[n0:]:     # how to re-run exactly this input: ./check C07 --replay <file>
+            if isinstance(v.get("detail"), dict):
+                v["detail"]["replay"] = {"harness_args": [str(a) for a in (args or [])], "key": obs_key(o)}
+
+
+def oracle_one(ctx, o):
+    if True:
         k = o["kind"]
         if k == "harness_crash":
             ctx.violation("S5", "harness crashed", {"kind": "crash"}, o)
@@ -392,8 +417,63 @@ def real_found(ctx):
     return any(v["found_input"] and not match_finding(v, fnd, ctx.prop) for v in ctx.violations)
 
 
+def tag_obligations(ctx, n0, args):
+    for v in ctx.violations[n0:]:
+        if isinstance(v.get("detail"), dict) and "replay" not in v["detail"]:
+            v["detail"]["replay"] = {"harness_args": [str(a) for a in args], "obligation": True}
+
+
+def replay(ctx, binp):
+    """./check C07 --replay <file>: re-run exactly the recorded input against the implementation and re-evaluate the recorded
+    clause (exit 1 + VIOLATION if it still fails, 0 if not); a record that names only a broken theorem / correspondence case
+    re-checks the obligations (S2-S4 on the recorded harness arguments).  Unreadable / foreign files: message, then a normal run."""
+    path = ctx.replay if os.path.isabs(ctx.replay) else os.path.join(VERIF, ctx.replay)
+    try:
+        rec = json.load(open(path))
+        det, sig = rec.get("detail") or {}, rec.get("signature") or {}
+        if rec.get("property") not in (None, ctx.prop) or not isinstance(det, dict) or not isinstance(sig, dict):
+            raise ValueError(f"not a {ctx.prop} replay record")
+    except (OSError, ValueError) as e:
+        ctx.note(f"replay file {ctx.replay} unreadable or not a {ctx.prop} record ({e}); running the normal check instead")
+        return None
+    rp = det.get("replay") or {}
+    args = rp.get("harness_args") or []
+    ctx.log(f"REPLAY recorded violation: {rec.get('what')}")
+    if sig.get("kind") in ("proof", "check_error", "internal") or rp.get("obligation") or not rp.get("key") or not args:
+        ctx.log("REPLAY: the record names a proof obligation / correspondence case, not an input: re-checking S2-S4")
+        msgs, spans = regen(ctx, GENERATORS)
+        for m in msgs:
+            ctx.proof_failures.append(("Gen/Spectrum.v", "translator", m))
+        if not msgs:
+            prove(ctx, "C07", extra_targets=["Proofs/C07_tac.vo"])
+        hargs = args or ["c07", rec.get("seed", ctx.seed), 4, 0]
+        obs = run_harness(ctx, binp, hargs)
+        if all(os.path.exists(os.path.join(COQ, p)) for p in ("Proofs/C07_tac.vo", "Gen/Spectrum.vo")):
+            correspondence(ctx, obs, True)
+        ctx.log("REPLAY verdict: " + ("the obligations are still broken" if (ctx.proof_failures or ctx.violations) else "all obligations check on this tree"))
+        return finish(ctx)
+    obs = run_harness(ctx, binp, args)
+    hit = [o for o in obs if obs_key(o) == rp["key"]]
+    if not hit:
+        ctx.log(f"REPLAY: the recorded input {rp['key']} is no longer produced by `vharness {' '.join(args)}` (setup construction changed); "
+                "evaluating every observation of that harness call instead")
+        hit = obs
+    ctx.log(f"REPLAY: re-evaluating {len(hit)} observation(s)")
+    oracle(ctx, hit, args)
+    ctx.log("REPLAY verdict: " + ("reproduces on this tree" if ctx.violations else "does NOT reproduce on this tree"))
+    ctx.cov["rule"] = "replay of one recorded input"
+    return finish(ctx)
+
+
+GENERATORS = ["spectrum", "efficiencies", "pm_integrand", "grid", "hom"]
+
+
 def run(ctx):
     binp = build_harness(ctx)
+    if getattr(ctx, "replay", None):
+        r = replay(ctx, binp)
+        if r is not None:
+            return r
     msgs, spans = regen(ctx, ["spectrum", "efficiencies", "pm_integrand", "grid", "hom"])
     keys = ("phasematch", "jsa", "utils", "math", "beam", "spdc::efficiencies")
     ctx.cov["translated_spans"] = {k: v for k, v in spans.items() if k.startswith(keys)}
@@ -402,22 +482,26 @@ def run(ctx):
     proved = (not msgs) and prove(ctx, "C07", extra_targets=["Proofs/C07_tac.vo"])
     quick = ctx.tier == "quick"
     n = 4 if quick else 16
-    obs = run_harness(ctx, binp, ["c07", ctx.seed, n, 0 if quick else 1])
-    oracle(ctx, obs)
+    hargs = ["c07", ctx.seed, n, 0 if quick else 1]
+    obs = run_harness(ctx, binp, hargs)
+    oracle(ctx, obs, hargs)
     for o in obs:
         if o["kind"] == "sup" and o["tag"] in ("d=3/4+", "thr=alpha+", "rand_in"):
             ctx.sample({"setup": o["setup"], "tag": o["tag"], "omega_s": fh(o["ws"]), "omega_i": fh(o["wi"]), "pump": fh(o["wp"]),
                         "threshold": fh(o["thr"]), "jsi": fh(o.get("jsi"))})
     tac_ok = all(os.path.exists(os.path.join(COQ, p)) for p in ("Proofs/C07_tac.vo", "Gen/Spectrum.vo"))
     if tac_ok:
+        n0 = len(ctx.violations)
         correspondence(ctx, obs, quick)
+        tag_obligations(ctx, n0, hargs)
     else:
         ctx.note("correspondence cases skipped: generated model / case tactics did not compile")
     if (not proved or any(not v["found_input"] for v in ctx.violations)) and not real_found(ctx):
         ctx.log("S5 deep search for a failing input (proof obligations or correspondence are broken)")
         for k in range(2):
-            obs2 = run_harness(ctx, binp, ["c07", ctx.seed + 1000 + k, 24, 1])
-            oracle(ctx, obs2)
+            a2 = ["c07", ctx.seed + 1000 + k, 24, 1]
+            obs2 = run_harness(ctx, binp, a2)
+            oracle(ctx, obs2, a2)
             if real_found(ctx):
                 break
     ctx.cov["rule"] = ("5 phase-matched setups (KTP/BBO/LiNbO3, types 0/1/2, poled and not, collinear and not) plus 4 edit histories of each that break energy conservation at the centre (signal / idler / pump retuned alone); two-source HOM with the sources scaled independently; per setup: envelope at centre, "
